@@ -47,6 +47,10 @@ def run_one(prop, tier, explain):
         from sa.model import Repo
         repo = Repo()
         explanation = mod.run(repo, rep, tier)
+        if tier == "thorough":
+            from sa import thorough
+            thorough.extras(prop, repo, rep)
+            thorough.variant_stability(prop, rep, None)
         rc = rep.finish(explanation, level=getattr(mod, "LEVEL", "other"))
         if explain is not None:
             fs = [f for f in rep.findings]
